@@ -25,17 +25,27 @@ package bit
 //@ end
 //@ func Writer.WriteBit
 //@   prop C14
+//@   uses opt.reliable
+//@   ensures[reliable_sink_never_fails] w.w.reliable ==> result == nil
+//@   opaque tok bitsval
+//@   uses bitsval_frame
 //@   requires wSane(w) && w.w.n < 72057594037927936
 //@   modifies w.b, w.count, w.w.out, w.w.n
-//@   ensures[bit_goes_to_next_free_position] (result == nil && old(w.count) > 1) ==> (w.count == old(w.count) - 1 && w.b[0] == old(w.b[0]) | ite(bit, uint8(1) << (old(w.count) - 1), uint8(0)) && w.w.n == old(w.w.n) && w.w.out == old(w.w.out))
-//@   ensures[full_byte_is_emitted] (result == nil && old(w.count) == 1) ==> (w.count == 8 && w.b[0] == 0 && w.w.n == old(w.w.n) + 1 && w.w.out[old(w.w.n)] == old(w.b[0]) | ite(bit, uint8(1), uint8(0)))
-//@   ensures[earlier_output_untouched] all(i, (i >= 0 && i < old(w.w.n)) ==> w.w.out[i] == old(w.w.out)[i])
+//@   ensures[opt.bitview:bit_goes_to_next_free_position] (result == nil && old(w.count) > 1) ==> (w.count == old(w.count) - 1 && w.b[0] == old(w.b[0]) | ite(bit, uint8(1) << (old(w.count) - 1), uint8(0)) && w.w.n == old(w.w.n) && w.w.out == old(w.w.out))
+//@   ensures[opt.bitview:full_byte_is_emitted] (result == nil && old(w.count) == 1) ==> (w.count == 8 && w.b[0] == 0 && w.w.n == old(w.w.n) + 1 && w.w.out[old(w.w.n)] == old(w.b[0]) | ite(bit, uint8(1), uint8(0)))
+//@   ensures[opt.bitview:earlier_output_untouched] all(i, (i >= 0 && i < old(w.w.n)) ==> w.w.out[i] == old(w.w.out)[i])
 //@   ensures result == nil ==> wSane(w)
-//@   ensures[appends_one_bit] result == nil ==> (wlen(w) == old(wlen(w)) + 1 && wbitAt(w, old(wlen(w))) == bit)
-//@   ensures[earlier_bits_kept] result == nil ==> all(i, (i >= 0 && i < old(wlen(w))) ==> wbitAt(w, i) == old(wbitAt(w, i)))
+//@   ensures[appends_one_bit] result == nil ==> wlen(w) == old(wlen(w)) + 1
+//@   ensures[opt.bitview:appended_bit] result == nil ==> wbitAt(w, old(wlen(w))) == bit
+//@   ensures[opt.bitview:earlier_bits_kept] result == nil ==> all(i, (i >= 0 && i < old(wlen(w))) ==> wbitAt(w, i) == old(wbitAt(w, i)))
+//@   ensures[bit_in_byte_view] result == nil ==> sbit(wdata(w), old(wlen(w))) == bit
+//@   ensures[earlier_bits_kept_in_byte_view] result == nil ==> all(i, (i >= 0 && i < old(wlen(w))) ==> sbit(wdata(w), i) == old(sbit(wdata(w), i)))
+//@   ensures[earlier_values_kept] result == nil ==> allof(p, "int", n, "int", trigger(bitsval(wdata(w), p, n), (p >= 0 && p <= 1152921504606846976 && n >= 0 && n <= 64 && p + n <= old(wlen(w))) ==> bitsval(wdata(w), p, n) == old(bitsval(wdata(w), p, n))))
 //@ end
 //@ func Writer.WriteByte
 //@   prop C14
+//@   uses opt.reliable
+//@   ensures[reliable_sink_never_fails] w.w.reliable ==> result == nil
 //@   requires wSane(w) && w.w.n < 72057594037927936
 //@   modifies w.b, w.w.out, w.w.n
 //@   ensures[emits_pending_bits_then_high_bits] result == nil ==> (w.w.n == old(w.w.n) + 1 && w.w.out[old(w.w.n)] == old(w.b[0]) | (b >> (8 - w.count)))
@@ -48,14 +58,20 @@ package bit
 //@ # low numBits bits of u, most significant first
 //@ func Writer.WriteBits
 //@   prop C14
-//@   opaque bitOf
+//@   ensures[reliable_sink_never_fails] w.w.reliable ==> result == nil
+//@   opaque bitOf tok bitsval sbit
+//@   uses tok_from_bitOf bitsval_frame_w sbit_from_bitOf opt.bitview opt.reliable
 //@   timeout 60
 //@   note the bit relations between u and the bytes written are discharged by bit-vector reasoning
 //@   requires wSane(w) && w.w.n < 72057594037927900 && numBits >= 0 && numBits <= 64
 //@   modifies w.b, w.count, w.w.out, w.w.n
-//@   ensures[appends_low_bits_msb_first] result == nil ==> (wlen(w) == old(wlen(w)) + numBits && forall(p, old(wlen(w)), old(wlen(w)) + numBits, wbitAt(w, p) == ubit(u, numBits - 1 - (p - old(wlen(w))))))
-//@   ensures[earlier_bits_kept] result == nil ==> all(i, (i >= 0 && i < old(wlen(w))) ==> wbitAt(w, i) == old(wbitAt(w, i)))
+//@   ensures[appends_numBits] result == nil ==> wlen(w) == old(wlen(w)) + numBits
+//@   ensures[opt.bitview:appends_low_bits_msb_first] result == nil ==> (forall(p, old(wlen(w)), old(wlen(w)) + numBits, wbitAt(w, p) == ubit(u, numBits - 1 - (p - old(wlen(w))))))
+//@   ensures[opt.bitview:earlier_bits_kept] result == nil ==> all(i, (i >= 0 && i < old(wlen(w))) ==> wbitAt(w, i) == old(wbitAt(w, i)))
 //@   ensures result == nil ==> wSane(w)
+//@   ensures[token_in_byte_view] result == nil ==> tok(wdata(w), old(wlen(w)), numBits, u)
+//@   ensures[earlier_bits_kept_in_byte_view] result == nil ==> all(i, (i >= 0 && i < old(wlen(w))) ==> sbit(wdata(w), i) == old(sbit(wdata(w), i)))
+//@   ensures[earlier_values_kept] result == nil ==> allof(p, "int", n, "int", trigger(bitsval(wdata(w), p, n), (p >= 0 && p <= 1152921504606846976 && n >= 0 && n <= 64 && p + n <= old(wlen(w))) ==> bitsval(wdata(w), p, n) == old(bitsval(wdata(w), p, n))))
 //@   loop 1 invariant numBits >= 0 && numBits <= numBits0 && wSane(w) && w.w.n <= old(w.w.n) + 8 && wlen(w) == old(wlen(w)) + (numBits0 - numBits) && u == u0 << uint(64 - numBits)
 //@   loop 1 invariant forall(p, old(wlen(w)), old(wlen(w)) + (numBits0 - numBits), wbitAt(w, p) == ubit(u0, numBits0 - 1 - (p - old(wlen(w)))))
 //@   loop 1 invariant all(i, (i >= 0 && i < old(wlen(w))) ==> wbitAt(w, i) == old(wbitAt(w, i)))
@@ -76,6 +92,24 @@ package bit
 //@ predicate rOK(r *Reader) bool = r.buf != nil && bufioutil.bufOK(r.buf) && r.count <= 8
 //@ # view: the reader consumes the bit sequence of its buffer; rpos = number of bits consumed so far
 //@ pure sbit(data map[int]byte, i int) bool = (data[i / 8] >> uint(7 - i % 8)) & 1 == 1
+//@ # token: the n bits at positions [p, p+n) are the low n bits of u, most significant first
+//@ pure tok(data map[int]byte, p int, n int, u uint64) bool = forall(q, p, p + n, sbit(data, q) == ubit(u, n - 1 - (q - p)))
+//@ # a token determines its value (witness: the highest bit in which two candidates differ)
+//@ lemma tok_unique bv prop C14 using clz64_def: all(data, "map[int]byte", all(p, "int", all(n, "int", all(x, "uint64", all(y, "uint64", (p >= 0 && p <= 1152921504606846976 && n >= 0 && n <= 64 && (n < 64 ==> (x >> uint(n) == 0 && y >> uint(n) == 0)) && tok(data, p, n, x) && tok(data, p, n, y)) ==> hint(sbit(data, p + n - 1 - (63 - clz64(x ^ y))), x == y))))))
+//@ # the writer's view as a byte map: the emitted bytes followed by the pending byte
+//@ predicate wdata(w *Writer) map[int]byte = store(w.w.out, w.w.n, w.b[0])
+//@ lemma tok_from_bitOf bv prop C14: allof(out, "map[int]byte", n, "int", b0, "byte", p, "int", k, "int", u, "uint64", trigger(tok(store(out, n, b0), p, k, u), (n >= 0 && n <= 72057594037927936 && p >= 0 && k >= 0 && k <= 64 && p + k <= n * 8 + 8 && forall(q, p, p + k, bitOf(out, n, b0, q) == ubit(u, k - 1 - (q - p)))) ==> tok(store(out, n, b0), p, k, u)))
+//@ lemma sbit_from_bitOf bv prop C14: allof(out, "map[int]byte", n, "int", b0, "byte", i, "int", trigger(sbit(store(out, n, b0), i), (n >= 0 && n <= 72057594037927936 && i >= 0 && i < n * 8 + 8) ==> bitOf(out, n, b0, i) == sbit(store(out, n, b0), i)))
+//@ # the value of the n bits at position p (n <= 64), in closed form: the nine bytes that can hold them
+//@ pure be64(data map[int]byte, k int) uint64 = uint64(data[k]) << 56 | uint64(data[k + 1]) << 48 | uint64(data[k + 2]) << 40 | uint64(data[k + 3]) << 32 | uint64(data[k + 4]) << 24 | uint64(data[k + 5]) << 16 | uint64(data[k + 6]) << 8 | uint64(data[k + 7])
+//@ pure bitsval(data map[int]byte, p int, n int) uint64 = ite(n <= 0, uint64(0), ((be64(data, p / 8) << uint(p % 8)) | (uint64(data[p / 8 + 8]) >> uint(8 - p % 8))) >> uint(64 - n))
+//@ lemma bitsval_fits bv prop C14: all(data, "map[int]byte", all(p, "int", all(n, "int", (n >= 0 && n < 64) ==> bitsval(data, p, n) >> uint(n) == 0)))
+//@ lemma bitsval_tok bv prop C14: all(data, "map[int]byte", all(p, "int", all(n, "int", (p >= 0 && p <= 1152921504606846976 && n >= 0 && n <= 64) ==> tok(data, p, n, bitsval(data, p, n)))))
+//@ lemma bitsval_def bv prop C14 using tok_unique bitsval_tok bitsval_fits opaque tok bitsval: all(data, "map[int]byte", all(p, "int", all(n, "int", all(u, "uint64", (p >= 0 && p <= 1152921504606846976 && n >= 0 && n <= 64 && (n < 64 ==> u >> uint(n) == 0) && tok(data, p, n, u)) ==> bitsval(data, p, n) == u))))
+//@ # tokens and their values depend only on the bits they cover
+//@ lemma tok_frame bv prop C14 opaque sbit: allof(d1, "map[int]byte", d2, "map[int]byte", p, "int", n, "int", u, "uint64", trigger(tok(d1, p, n, u), tok(d2, p, n, u), (tok(d1, p, n, u) && forall(q, p, p + n, sbit(d1, q) == sbit(d2, q))) ==> tok(d2, p, n, u)))
+//@ lemma bitsval_frame bv prop C14 opaque sbit tok bitsval using tok_frame bitsval_tok bitsval_def bitsval_fits: allof(d1, "map[int]byte", d2, "map[int]byte", p, "int", n, "int", trigger(bitsval(d1, p, n), bitsval(d2, p, n), (p >= 0 && p <= 1152921504606846976 && n >= 0 && n <= 64 && forall(q, p, p + n, sbit(d1, q) == sbit(d2, q))) ==> hint(tok(d2, p, n, bitsval(d1, p, n)), bitsval(d2, p, n) == bitsval(d1, p, n))))
+//@ lemma bitsval_frame_w bv prop C14 opaque sbit tok bitsval bitOf using bitsval_frame sbit_from_bitOf: allof(o1, "map[int]byte", n1, "int", b1, "byte", o2, "map[int]byte", n2, "int", b2, "byte", p, "int", n, "int", trigger(bitsval(store(o1, n1, b1), p, n), bitsval(store(o2, n2, b2), p, n), (n1 >= 0 && n1 <= 72057594037927936 && n2 >= 0 && n2 <= 72057594037927936 && p >= 0 && p <= 1152921504606846976 && n >= 0 && n <= 64 && p + n <= n1 * 8 + 8 && p + n <= n2 * 8 + 8 && forall(q, p, p + n, bitOf(o1, n1, b1, q) == bitOf(o2, n2, b2, q))) ==> bitsval(store(o2, n2, b2), p, n) == bitsval(store(o1, n1, b1), p, n)))
 //@ predicate rpos(r *Reader) int = r.buf.index * 8 - int(r.count)
 //@ predicate rbitAt(r *Reader, i int) bool = sbit(contents(r.buf.buf), i)
 //@ # the pending byte holds the not yet consumed low bits of the last fetched byte, shifted to the top
@@ -97,6 +131,7 @@ package bit
 //@   ensures[returns_next_bit] result1 == nil ==> (result0 == old(rbitAt(r, rpos(r))) && rpos(r) == old(rpos(r)) + 1 && rSane(r))
 //@   ensures[error_only_at_end_of_data] (old(r.err) == nil && old(rpos(r)) < r.buf.length * 8) ==> result1 == nil
 //@   ensures[error_is_sticky] result1 == r.err
+//@   ensures r.count < 8 && r.buf.buf == old(r.buf.buf) && r.buf.length == old(r.buf.length)
 //@ end
 //@ func Reader.ReadByte
 //@   prop C14
@@ -106,6 +141,8 @@ package bit
 //@   ensures[unaligned_read_joins_two_bytes] (old(r.count) > 0 && old(r.buf.index) < r.buf.length) ==> (result0 == old(r.b) | (r.buf.buf[old(r.buf.index)] >> r.count) && r.b == r.buf.buf[old(r.buf.index)] << (8 - r.count) && result1 == nil && r.buf.index == old(r.buf.index) + 1)
 //@   ensures[end_of_data_is_an_error] old(r.buf.index) >= r.buf.length ==> result1 != nil
 //@   ensures r.count == old(r.count) && rOK(r)
+//@   ensures[error_only_at_end_of_data] (old(r.err) == nil && old(rpos(r)) + 8 <= r.buf.length * 8) ==> result1 == nil
+//@   ensures r.buf.buf == old(r.buf.buf) && r.buf.length == old(r.buf.length)
 //@   ensures[returns_next_eight_bits] result1 == nil ==> (rpos(r) == old(rpos(r)) + 8 && rSane(r) && forall(p, old(rpos(r)), old(rpos(r)) + 8, bbit(result0, 7 - (p - old(rpos(r)))) == old(rbitAt(r, p))))
 //@   ensures[error_is_sticky] result1 == r.err
 //@ end
@@ -113,17 +150,20 @@ package bit
 //@ func Reader.ReadBits
 //@   prop C14
 //@   opaque sbit
-//@   timeout 60
+//@   timeout 90
 //@   note bit positions are 64-bit machine integers; the step of the bit loop takes z3 5-12 s
-//@   requires rSane(r) && r.count < 8 && numBits >= 0 && numBits <= 64
+//@   requires rSane(r) && r.count < 8
 //@   modifies r.b, r.count, r.err, r.buf.index
-//@   ensures[consumes_numBits] result1 == nil ==> (rpos(r) == old(rpos(r)) + numBits && rSane(r))
-//@   ensures[value_is_the_bits_read] result1 == nil ==> forall(p, old(rpos(r)), old(rpos(r)) + numBits, old(rbitAt(r, p)) == ubit(result0, old(rpos(r)) + numBits - 1 - p))
-//@   ensures[no_extra_bits] (result1 == nil && numBits < 64) ==> result0 >> uint(numBits) == 0
-//@   loop 1 invariant numBits >= 0 && numBits <= numBits0 && rSane(r) && r.count < 8 && rpos(r) == old(rpos(r)) + (numBits0 - numBits) && r.buf.buf == old(r.buf.buf) && r.buf.length == old(r.buf.length)
-//@   loop 1 invariant (numBits0 - numBits < 64) ==> u >> uint(numBits0 - numBits) == 0
-//@   loop 1 invariant forall(p, old(rpos(r)), old(rpos(r)) + (numBits0 - numBits), old(rbitAt(r, p)) == ubit(u, old(rpos(r)) + (numBits0 - numBits) - 1 - p))
-//@   loop 2 invariant numBits >= 0 && numBits <= numBits0 && numBits < 8 && rSane(r) && rpos(r) == old(rpos(r)) + (numBits0 - numBits) && r.buf.buf == old(r.buf.buf) && r.buf.length == old(r.buf.length)
-//@   loop 2 invariant (numBits0 - numBits < 64) ==> u >> uint(numBits0 - numBits) == 0
-//@   loop 2 invariant forall(p, old(rpos(r)), old(rpos(r)) + (numBits0 - numBits), old(rbitAt(r, p)) == ubit(u, old(rpos(r)) + (numBits0 - numBits) - 1 - p))
+//@   ensures[consumes_numBits] (result1 == nil && numBits >= 0 && numBits <= 64) ==> rpos(r) == old(rpos(r)) + numBits
+//@   ensures[reads_the_token] (result1 == nil && numBits >= 0 && numBits <= 64) ==> tok(contents(r.buf.buf), old(rpos(r)), numBits, result0)
+//@   ensures[no_extra_bits] (result1 == nil && numBits >= 0 && numBits < 64) ==> result0 >> uint(numBits) == 0
+//@   ensures[error_only_at_end_of_data] (old(r.err) == nil && numBits >= 0 && numBits <= 64 && old(rpos(r)) + numBits <= r.buf.length * 8) ==> result1 == nil
+//@   ensures rOK(r) && r.count < 8 && r.buf.buf == old(r.buf.buf) && r.buf.length == old(r.buf.length) && (result1 == nil ==> rSane(r))
+//@   ensures[error_is_sticky] (result1 != nil ==> r.err != nil) && ((result1 == nil && old(r.err) == nil && numBits >= 0 && numBits <= 64) ==> r.err == nil)
+//@   loop 1 invariant rSane(r) && r.count < 8 && r.buf.buf == old(r.buf.buf) && r.buf.length == old(r.buf.length) && numBits <= numBits0 && (numBits0 >= 0 ==> numBits >= 0)
+//@   loop 1 invariant (numBits0 >= 0 && numBits0 <= 64) ==> (rpos(r) == old(rpos(r)) + (numBits0 - numBits) && ((numBits0 - numBits < 64) ==> u >> uint(numBits0 - numBits) == 0) && (old(r.err) == nil ==> r.err == nil))
+//@   loop 1 invariant (numBits0 >= 0 && numBits0 <= 64) ==> forall(p, old(rpos(r)), old(rpos(r)) + (numBits0 - numBits), old(rbitAt(r, p)) == ubit(u, old(rpos(r)) + (numBits0 - numBits) - 1 - p))
+//@   loop 2 invariant rSane(r) && r.count < 8 && r.buf.buf == old(r.buf.buf) && r.buf.length == old(r.buf.length) && numBits <= numBits0 && (numBits0 >= 0 ==> numBits >= 0) && numBits < 8
+//@   loop 2 invariant (numBits0 >= 0 && numBits0 <= 64) ==> (rpos(r) == old(rpos(r)) + (numBits0 - numBits) && ((numBits0 - numBits < 64) ==> u >> uint(numBits0 - numBits) == 0) && (old(r.err) == nil ==> r.err == nil))
+//@   loop 2 invariant (numBits0 >= 0 && numBits0 <= 64) ==> forall(p, old(rpos(r)), old(rpos(r)) + (numBits0 - numBits), old(rbitAt(r, p)) == ubit(u, old(rpos(r)) + (numBits0 - numBits) - 1 - p))
 //@ end
